@@ -10,7 +10,8 @@ Directives (each on its own line, leading whitespace ignored):
   //@  invariant ... / decreases ...          the `//@  ` lines (prefix stripped) are inserted between the loop
   //@END                                      header and its `{`
   //@SUB "<from>" -> "<to>"                   literal rewrite inside the body (must match; listed in evidence)
-  //@RESUB "<regex>" -> "<to>"                regular-expression rewrite (must match at least once)
+  //@RESUB "<regex>" -> "<to>"                regular-expression rewrite (must match at least once; RESUBOPT: may be absent --
+                                              used for glue whose un-rewritten form cannot type-check in the unit, so absence degrades)
   //@SUBOPT "<from>" -> "<to>"                same, but skipped when <from> does not occur (used for `X::CONST` -> `X::CONST()`)
   //@START ... //@END                          insert the `//@  ` lines right after the opening brace of the body
   //@AT "<text>" before|after                 insert the following `//@  ` lines before/after the first body line
@@ -144,9 +145,9 @@ def splice(tmpl_path, repo_root):
                         i += 1
                     i += 1
                     loops[n] = buf
-                elif t.startswith('//@RESUB '):
-                    mm = re.match(r'//@RESUB\s+"(.*)"\s*->\s*"(.*)"\s*$', t)
-                    subs.append((re.compile(mm.group(1)), mm.group(2), False))
+                elif t.startswith('//@RESUB ') or t.startswith('//@RESUBOPT '):
+                    mm = re.match(r'//@RESUB(?:OPT)?\s+"(.*)"\s*->\s*"(.*)"\s*$', t)
+                    subs.append((re.compile(mm.group(1)), mm.group(2), t.startswith('//@RESUBOPT ')))
                     i += 1
                 elif t.startswith('//@SUB ') or t.startswith('//@SUBOPT '):
                     mm = re.match(r'//@SUB(?:OPT)?\s+"(.*)"\s*->\s*"(.*)"\s*$', t)
@@ -189,6 +190,8 @@ def splice(tmpl_path, repo_root):
             for frm, to, optional in subs:
                 if hasattr(frm, 'pattern'):
                     body, nsub = frm.subn(to, body)
+                    if nsub == 0 and optional:
+                        continue
                     if nsub == 0:
                         raise LostAnchor('rewrite pattern `%s` not found in %s' % (frm.pattern, a['fn']))
                     out.rewrites.append('%s:%s /%s/ -> `%s` (%d places)' % (a['file'], a['fn'], frm.pattern, to, nsub))
